@@ -298,7 +298,11 @@ def q2(proj, rep):
             rep.violation('Q2', f.qual, f'subsets enumerated by `{ast.unparse(c)}`: not every weight-{wvar} support exactly once', m, c)
     n += 1
     p = seen.get('product')
-    if p is None:
+    if p is None and [k for k in seen if k in ('combinations_with_replacement', 'permutations')]:
+        k = [k for k in seen if k in ('combinations_with_replacement', 'permutations')][0]
+        rep.violation('Q2', f.qual, f'operator words are enumerated by itertools.{k}: only ordered / repetition-free label sequences are produced, so e.g. Y_i X_j (i<j) is '
+                      f'never generated: not every Pauli of a given weight appears', m, seen[k])
+    elif p is None:
         rep.undecided('Q2', f.qual, 'operator-word enumeration idiom unknown', m, cand, text='words')
     else:
         rp = None
@@ -658,4 +662,39 @@ def q6(proj, rep):
         else:
             rep.ok('Q6', f'{f.qual}[{d.target.id}]', f'`{ast.unparse(d)}` with {K} = code.shape[0] read before the padding', m, d)
     rep.count('Q6.normalisations', n)
+    return n
+
+
+# ------------------------------------------------------------------------------------------------ Q7
+RULE_Q7 = ('Q7: hf_split_element distributes the LABELS in `np0` over the groups: the chosen positions `ind0` (from combinations(range(len(np0)), k)) are '
+           'translated through `np0[ind0]` both where a group closes the recursion (leaf yield) and where the recursion continues (prefix). Yielding the '
+           'positions themselves equals the labels only at the top level; after earlier groups removed qubits the later groups land on wrong qubits.')
+
+
+def q7(proj, rep):
+    rep.rule('Q7', RULE_Q7)
+    f = proj.func('numqi.qec._internal.hf_split_element')
+    m = f.module
+    rep.touch(m)
+    n = 0
+    sites = []
+    for x in ast.walk(f.node):
+        if isinstance(x, ast.Tuple) and len(x.elts) == 1 and isinstance(x.elts[0], ast.Call) and isinstance(x.elts[0].func, ast.Name) and x.elts[0].func.id == 'tuple' \
+                and x.elts[0].args and 'ind0' in ast.unparse(x.elts[0].args[0]):
+            sites.append(x)
+    for x in sites:
+        n += 1
+        t = ast.unparse(x.elts[0].args[0]).replace(' ', '')
+        st = x
+        while not isinstance(st, ast.stmt):
+            st = st._parent
+        if t in ('np0[ind0].tolist()', 'np0[ind0]'):
+            rep.ok('Q7', f.qual, f'`{ast.unparse(st)[:60]}`: positions translated to labels through np0', m, st)
+        elif t in ('ind0', 'list(ind0)'):
+            rep.violation('Q7', f.qual, f'`{ast.unparse(st)[:60]}` yields the POSITIONS chosen among the remaining elements instead of the labels np0[ind0]: once earlier groups '
+                          f'have taken qubits, this group acts on other qubits than intended (operators hitting one qubit twice, others missing)', m, st)
+        else:
+            rep.undecided('Q7', f.qual, f'`{t}` not recognised', m, st)
+            n -= 1
+    rep.count('Q7.label_translations', n)
     return n
